@@ -623,6 +623,9 @@ func runC20(c *Check, w *World) {
 		}
 	}
 	ruleWasmTimeStep(c, w, tb, iv, "R20.4", regs)
+	// … and the time-step function the binding calls is the native one in this build too: floor(unix/period), never
+	// reassigned (a *_wasm.go file with an init() that swaps it exists only in the js/wasm build)
+	ruleCounterFunction(c, w, tb, ef, "R20.4")
 
 	// ---- R20.5 error convention ----------------------------------------------------------------------------
 	for name, f := range regs {
